@@ -10,6 +10,10 @@
                         capacity `total` suffices);
   * `Hom.run_spec`    : the end-to-end theorem (rejection ⇔ a block is rejected; `L̃L̃ᵀ = C`,
                         `L̃·(W A) = A`, `L̃·(W b) = b`).
+  No hypothesis on repeated column indices inside a sparse row (`SMat.nodupRows` is not assumed anywhere): the
+  counting pass collects the columns in a set, the `width == 0` branch keeps every entry, the gather loop ADDS
+  (`gather_spec`), and `denseRow` reads a repeated column as the sum.  Non-vacuity with a repeated column:
+  `runExMatRep`, `runExRep_accepted`.
 -/
 import Gama.Lemmas.CovBdField
 import Gama.Lemmas.CovBdBuild
@@ -308,8 +312,7 @@ omit [IsStrictOrderedRing K] in
 theorem asmSt_spec (mat : SMat K) (bd : BlockDiag K) (bc : Array Nat)
     (hbc : ∀ b, 1 ≤ b → b ≤ bd.blocks → bd.widthOf b ≠ 0 →
       bc.getD b 0 = (blockOcc mat (offB bd (b - 1)) (bd.dimOf b)).length)
-    (hcols : ∀ r, 1 ≤ r → r ≤ offB bd bd.blocks → ∀ e ∈ mat.rowEntries r, 1 ≤ e.1 ∧ e.1 ≤ mat.cols)
-    (hnd : ∀ r, 1 ≤ r → r ≤ offB bd bd.blocks → ((mat.rowEntries r).map (fun e => e.1)).Nodup) :
+    (hcols : ∀ r, 1 ≤ r → r ≤ offB bd bd.blocks → ∀ e ∈ mat.rowEntries r, 1 ≤ e.1 ∧ e.1 ≤ mat.cols) :
     ∀ n, n ≤ bd.blocks →
       asmSt mat bd bc n =
         (offB bd n, (List.range' 1 n).flatMap (blockRows mat bd), Array.replicate (mat.cols + 1) 0) := by
@@ -354,8 +357,7 @@ theorem rowOff_band0 (d i : Nat) (_h1 : 1 ≤ i) (h2 : i ≤ d) : off d 0 i i = 
 theorem Hom.finish_spec (mat : SMat K) (bd : BlockDiag K) (rhs : Array K) (Fs : List (CovMat K))
     (hH : bd.Holds Fs []) (hwf : ∀ F ∈ Fs, F.WF) (hsize : bd.size = (Fs.map (·.dim)).sum)
     (hpos : ∀ k (hk : k < Fs.length) i, 1 ≤ i → i ≤ (Fs[k]'hk).dim → 0 < (Fs[k]'hk).get i i)
-    (hmat : mat.WF) (hrows : mat.rows = (Fs.map (·.dim)).sum) (hrhs : rhs.size = mat.rows)
-    (hnodup : mat.nodupRows = true) :
+    (hmat : mat.WF) (hrows : mat.rows = (Fs.map (·.dim)).sum) (hrhs : rhs.size = mat.rows) :
     (Hom.finish mat bd rhs).pr.size = rhs.size ∧
     (Hom.finish mat bd rhs).sm.rows = mat.rows ∧ (Hom.finish mat bd rhs).sm.cols = mat.cols ∧
     ∀ k (hk : k < Fs.length),
@@ -379,8 +381,7 @@ theorem Hom.finish_spec (mat : SMat K) (bd : BlockDiag K) (rhs : Array K) (Fs : 
       intro b h1 h2 hw
       rw [c4 b h1 h2 hw]
       exact countBlock_snd _ _ _ _ hw)
-    (by rw [hofftot]; exact mat_cols_of_WF mat hmat)
-    (by rw [hofftot]; exact mat_nodup_of mat hnodup) bd.blocks (Nat.le_refl _)
+    (by rw [hofftot]; exact mat_cols_of_WF mat hmat) bd.blocks (Nat.le_refl _)
   obtain ⟨hlen, hlook⟩ := flatMap_range'_getD (blockRows mat bd) bd.dimOf (blockRows_length mat bd) [] bd.blocks
   have hcap := flatMap_range'_flatten_le (blockRows mat bd) (capOf mat bd) bd.blocks
     (fun b _ _ => blockRows_cap mat bd b)
@@ -529,8 +530,7 @@ theorem Hom.run_spec_aux
     (tol : K) (htol : 0 < tol) (mat : SMat K) (bd0 : BlockDiag K) (rhs : Array K)
     (Cs : List (CovMat K))
     (hH : bd0.Holds Cs []) (hsz : bd0.size = (Cs.map (·.dim)).sum) (hwf : ∀ C ∈ Cs, C.WF)
-    (hmat : mat.WF) (hrows : mat.rows = (Cs.map (·.dim)).sum) (hrhs : rhs.size = mat.rows)
-    (hnodup : mat.nodupRows = true) :
+    (hmat : mat.WF) (hrows : mat.rows = (Cs.map (·.dim)).sum) (hrhs : rhs.size = mat.rows) :
     RunSpec tol mat rhs Cs
       (if (bd0.cholDec tol).1 ≠ 0 then .error .NonPositiveDefinite
        else .ok (Hom.finish mat (bd0.cholDec tol).2 rhs)) := by
@@ -559,7 +559,7 @@ theorem Hom.run_spec_aux
       have hkC : k < Cs.length := by omega
       exact ((hall k hkC hk).1 (Or.inl hret)).2.2.2.2.1 i h1 (by rw [← hdim k hkC hk]; exact h2)
     obtain ⟨f1, f2, f3, f4⟩ := Hom.finish_spec mat (bd0.cholDec tol).2 rhs Fs hF hwfF
-      (by rw [← hsum, ← hsz]; rfl) hposF hmat (by rw [← hsum]; exact hrows) hrhs hnodup
+      (by rw [← hsum, ← hsz]; rfl) hposF hmat (by rw [← hsum]; exact hrows) hrhs
     refine ⟨Fs, hlen, f1, f2, f3, ?_⟩
     intro k hk hk'
     obtain ⟨a1, a2, a3, a4, a5, a6, _, _⟩ := (hall k hk hk').1 (Or.inl hret)
@@ -569,15 +569,15 @@ theorem Hom.run_spec_aux
   · rw [if_pos hret]
     refine ⟨⟨fun _ => r1 ▸ hret, fun _ => ⟨_, rfl⟩⟩, fun e he => (by cases he; rfl), fun out hout => (by cases hout)⟩
 
-/-- **`Homogenization::run()` end to end.** -/
+/-- **`Homogenization::run()` end to end.**  A column index may be repeated inside a row of `mat`: its coefficients
+    add up (`denseRow`). -/
 theorem Hom.run_spec
     (hsq : ∀ x : K, 0 < x → SqrtFn.sq x * SqrtFn.sq x = x ∧ 0 < SqrtFn.sq x)
     (tol : K) (htol : 0 < tol) (mat : SMat K) (cov : BlockDiag K) (rhs : Array K)
     (Cs : List (CovMat K)) (tail : List K)
     (hcov : cov.Built Cs tail) (hwf : ∀ C ∈ Cs, C.WF)
     (hmat : mat.WF)
-    (hrows : mat.rows = (Cs.map (·.dim)).sum) (hrhs : rhs.size = mat.rows)
-    (hnodup : mat.nodupRows = true) :
+    (hrows : mat.rows = (Cs.map (·.dim)).sum) (hrhs : rhs.size = mat.rows) :
     -- (1) rejected iff some block is rejected
     ((∃ e, Hom.run tol mat cov rhs = .error e) ↔ (bdCholDec tol Cs).1 ≠ 0) ∧
     (∀ e, Hom.run tol mat cov rhs = .error e → e = .NonPositiveDefinite) ∧
@@ -600,7 +600,7 @@ theorem Hom.run_spec
             ∑ j ∈ Icc 1 i, (Fs[k]'hk').get i j * denseRow (out.sm.rowEntries (rowsBefore Cs k + j)) c
               = denseRow (mat.rowEntries (rowsBefore Cs k + i)) c)) := by
   have hB := BlockDiag.built_replicate (Zero.zero : K) hcov hwf
-  have h := Hom.run_spec_aux hsq tol htol mat _ rhs Cs hB.holds hB.size hwf hmat hrows hrhs hnodup
+  have h := Hom.run_spec_aux hsq tol htol mat _ rhs Cs hB.holds hB.size hwf hmat hrows hrhs
   unfold RunSpec at h
   rw [Hom.run_eq]
   exact h
@@ -633,11 +633,34 @@ theorem runEx_accepted : ∃ out, Hom.run (1 / 100 : ℝ) runExMat runExCov #[1,
   have hsq : ∀ x : ℝ, 0 < x → SqrtFn.sq x * SqrtFn.sq x = x ∧ 0 < SqrtFn.sq x :=
     fun x hx => ⟨Real.mul_self_sqrt hx.le, Real.sqrt_pos.mpr hx⟩
   have h := Hom.run_spec (K := ℝ) hsq (1 / 100) (by norm_num) runExMat runExCov #[1, 2, 3] exCs []
-    runExCov_built exCs_wf runExMat_wf (by decide) (by decide) (by decide)
+    runExCov_built exCs_wf runExMat_wf (by decide) (by decide)
   have hacc : (bdCholDec (1 / 100 : ℝ) exCs).1 = 0 := by
     rw [← (BlockDiag.cholDec_blockwise (1 / 100 : ℝ) exBd exCs [] exBd_holds exCs_wf).1]
     exact exBd_accepts
   match hr : Hom.run (1 / 100 : ℝ) runExMat runExCov #[1, 2, 3] with
+  | .ok out => exact ⟨out, rfl⟩
+  | .error e => exact absurd hacc (h.1.1 ⟨e, hr⟩)
+
+/-- the same matrix with a REPEATED column index: row 2 (first row of the correlated block) stores column 1 twice -/
+noncomputable def runExMatRep : SMat ℝ := SMat.ofRows 3 2 [[(1, 1)], [(1, 2), (1, 1)], [(2, 3)]] []
+
+theorem runExMatRep_wf : runExMatRep.WF := SMat.ofRows_WF 3 2 _ [] rfl (by
+    intro row hrow e he
+    simp only [List.mem_cons, List.not_mem_nil, or_false] at hrow
+    rcases hrow with rfl | rfl | rfl <;> simp at he <;> rcases he with rfl | rfl <;> decide)
+
+theorem runExMatRep_repeats : runExMatRep.nodupRows = false := by decide
+
+/-- all hypotheses of `Hom.run_spec` hold for the input with the repeated column, and the run is accepted -/
+theorem runExRep_accepted : ∃ out, Hom.run (1 / 100 : ℝ) runExMatRep runExCov #[1, 2, 3] = .ok out := by
+  have hsq : ∀ x : ℝ, 0 < x → SqrtFn.sq x * SqrtFn.sq x = x ∧ 0 < SqrtFn.sq x :=
+    fun x hx => ⟨Real.mul_self_sqrt hx.le, Real.sqrt_pos.mpr hx⟩
+  have h := Hom.run_spec (K := ℝ) hsq (1 / 100) (by norm_num) runExMatRep runExCov #[1, 2, 3] exCs []
+    runExCov_built exCs_wf runExMatRep_wf (by decide) (by decide)
+  have hacc : (bdCholDec (1 / 100 : ℝ) exCs).1 = 0 := by
+    rw [← (BlockDiag.cholDec_blockwise (1 / 100 : ℝ) exBd exCs [] exBd_holds exCs_wf).1]
+    exact exBd_accepts
+  match hr : Hom.run (1 / 100 : ℝ) runExMatRep runExCov #[1, 2, 3] with
   | .ok out => exact ⟨out, rfl⟩
   | .error e => exact absurd hacc (h.1.1 ⟨e, hr⟩)
 
